@@ -149,6 +149,7 @@ def one(ctx, dn, directed, idkind, delim, enc, target, big=False):
         kw = dict(encoding=enc)
         if delim is not None:
             kw["delimiter"] = delim
+        kw = iohelp.drop_defaults(ctx.rng, kw, iohelp.WRITE_DEFAULTS, ctx)
         try:
             # the target is passed positionally or by keyword (both are resolved by the same decorator)
             if ctx.rng.random() < 0.3:
@@ -191,6 +192,9 @@ def one(ctx, dn, directed, idkind, delim, enc, target, big=False):
         rk = dict(directed=directed, nodetype=conv, timestamptype=int, encoding=enc)
         if delim is not None:
             rk["delimiter"] = delim
+        if conv is str:
+            rk["nodetype"] = None if ctx.rng.random() < 0.5 else str      # the reader yields strings by itself
+        rk = iohelp.drop_defaults(ctx.rng, rk, iohelp.READ_DEFAULTS, ctx)
         arg = tgt.read_arg()
         try:
             H = dn.read_snapshots(path=arg, **rk) if ctx.rng.random() < 0.3 else dn.read_snapshots(arg, **rk)
@@ -240,6 +244,7 @@ def four_column(ctx, dn):
     kw = dict(directed=directed, nodetype=int, timestamptype=int)
     if delim is not None:
         kw["delimiter"] = delim
+    kw = iohelp.drop_defaults(rng, kw, iohelp.READ_DEFAULTS, ctx)
     try:
         if rng.random() < 0.5:
             H = dn.parse_snapshots(lines, **kw)
